@@ -404,12 +404,15 @@ def h_conv2d_linear_cost_vars(H, kind, bias, discrete):
 _ENUM = 'kernel sizes 1..9 (quick) / 1..16 (thorough), initial dilation 1..3, stride 1..2, 1..5 output channels, fold_bn / fused / no BatchNorm, bias on/off are enumerated; values are arbitrary reals'
 PROPERTY = {
     'C08': dict(
-        level='proof',
-        explanation='K1-K5 as post-conditions of the real mask / size / export code for ALL real architectural parameters: >= 1 feature, >= 1 tap, dilation >= 1, '
+        level='other',
+        explanation='(per-layer clauses are proofs over all real parameter values; the property as a whole is claimed at level other because its whole-model clauses are bounded in '
+                    'topology and two architectures are known findings) K1-K5 as post-conditions of the real mask / size / export code for ALL real architectural parameters: >= 1 feature, >= 1 tap, dilation >= 1, '
                     'frozen maskers keep full size, exported module sizes == summary(), export defined (no exception path). ' + _ENUM,
         not_decided=['which width groups are frozen and that whole exported architectures still run: decided only for the enumerated topologies of contracts/pit_graph.py and the enumerated '
                      'whole models of contracts/whole_pit.py (bounded in topology), not for every architecture',
-                     'float32 absorption for huge parameter values such as 1e30 (A-real)'],
+                     'float32 absorption for huge parameter values such as 1e30 (A-real)',
+                     'known findings on the unchanged tree (known_findings.json): a network whose output is a channel concatenation loses output channels; a temporal convolution with '
+                     'built-in symmetric padding changes the output length when its receptive field is pruned'],
         assumptions=['single-node fx bookkeeping (get_submodule / add_submodule / inserting_before / call_module) as specified in pyvc/torchlib.py'],
     ),
     'C01': dict(
@@ -437,7 +440,7 @@ PROPERTY = {
                     'in the magnitude of every mask parameter in both cost modes, open masks = original sizes, cost reads no weights (the probing cost '
                     'specifications of contracts/wrappers.py receive only hyper-parameters), pass-through backward bodies of every straight-through function',
         not_decided=['every clause about .grad (finite, non-zero for trainable elements, none to weights): autograd is trusted, only the hand-written backward '
-                     'bodies are under contract', 'ODiMO parallel-accelerator reduction', 'GateSTE / PACTActSTE backward (not pass-through by design)', 'continuous-mode monotonicity of the effective kernel size for kernel sizes above 7 (bilinear in 13+ parameters: the solvers time out; discrete mode goes up to 9)'],
+                     'bodies are under contract', 'ODiMO: the parallel-accelerator reduction is under contract on a latency vector (between min and max); the default ODiMO_MPS cost cannot be evaluated on the unchanged tree (known finding, contracts/odimo.py)', 'GateSTE / PACTActSTE backward (not pass-through by design)', 'continuous-mode monotonicity of the effective kernel size for kernel sizes above 7 (bilinear in 13+ parameters: the solvers time out; discrete mode goes up to 9)'],
         assumptions=[],
     ),
 }
